@@ -371,7 +371,9 @@ def replay_and_judge(ctx, binary, cases, nproc, single=False):
             for v in f.result():
                 verdicts[v["id"]] = v
     # ---- verdicts ---------------------------------------------------------------------------------------------
-    for cid, tail in crashes:
+    if len(crashes) > 3:
+        ctx.log("%d cases crashed the server process; the first 3 are reported" % len(crashes))
+    for cid, tail in crashes[:3]:
         c = by_id[cid]
         m = re.search(r"^(panic: .*|fatal error: .*)$", tail, re.M)
         ctx.violation("%s:panic:%s" % (c["proto"], (m.group(1) if m else "crash")[:80]),
